@@ -136,6 +136,28 @@ theorem import_export_full_fails : ¬ import_export_full := by
   cases h1
   exact absurd h2.2.1 (by decide)
 
+/-! ### the other import entry points: `ImportUint` (all four Go widths), `ImportBytes`, `ExportUint64` -/
+
+/-- `ImportUint` lays the value out faithfully: the bytes denote the value, whatever the width … -/
+theorem importUint_value (w v optBits : Nat) (hv : v < 2 ^ w) (hw : w % 8 = 0) :
+    valOf (importUint w v optBits).bytes = v := valOf_importUint optBits hv hw
+
+/-- … `ExportUint64` returns it … -/
+theorem exportUint64_importUint (w v optBits : Nat) (hv : v < 2 ^ w) (hw : w % 8 = 0) (h64 : w ≤ 64) :
+    exportUint64 (importUint w v optBits) = some v :=
+  BMV.Numbers.exportUint64_importUint optBits hv hw h64
+
+/-- … a `uint64` round-trips exactly through the text form … -/
+theorem import_export_importUint64 (v : Nat) (hv : v < 2 ^ 64) :
+    (exportString (importUint 64 v 0)).bind importString = some (importUint 64 v 0) :=
+  roundtrip_unsigned64 _ (importUint64_wf hv)
+
+/-- … and a `uint8/16/32` (or an `optionalBits` override) comes back with the same value but 64 bits
+    (the listed finding `C08-unsigned-sized-width-lost`) -/
+theorem import_export_importUint_value (w v optBits : Nat) (hv : v < 2 ^ w) (hw : w % 8 = 0) (h64 : w ≤ 64) :
+    (exportString (importUint w v optBits)).bind importString = some ⟨toBytesLE 8 v, 64, .unsigned⟩ :=
+  importUint_reimport optBits hv hw h64
+
 /-! ### widths -/
 
 /-- `ExportBinaryNBits(n)` returns exactly `n` digits whenever it succeeds … -/
@@ -174,6 +196,10 @@ example : WFU64 ⟨[56, 0, 0, 0, 0, 0, 0, 0], 64, .unsigned⟩ :=
   ⟨rfl, by intro b hb; simp at hb; omega, rfl, rfl⟩
 example : WFS64 ⟨[255, 255, 255, 255, 255, 255, 255, 255], 64, .signed⟩ :=
   ⟨rfl, by intro b hb; simp at hb; omega, rfl, rfl⟩
+example : importUint 64 0x0102030405060708 0 = ⟨[8, 7, 6, 5, 4, 3, 2, 1], 64, .unsigned⟩ := by decide +kernel
+example : exportString (importUint 64 0x10000000000 0) = some (ofString "1099511627776") := by decide +kernel
+example : exportUint64 (importUint 16 0xBEEF 0) = some 0xBEEF := by decide +kernel
+example : importBytes [1, 2] 16 = ⟨[2, 1], 16, .unsigned⟩ := by decide +kernel
 example : importString (ofString "0b<5>101") = some ⟨[5], 5, .bin⟩ := by decide +kernel
 example : exportString ⟨[5], 5, .bin⟩ = some (ofString "0b<5>101") := by decide +kernel
 example : importString (ofString "0x901") = some ⟨[1, 9], 16, .hex⟩ := by decide +kernel
